@@ -101,6 +101,39 @@ def if_chains(maxlen, rnd, limit):
         yield tag, [OBS_DECL, obs(node)]
 
 
+def value_positions():
+    """if / match whose branch or arm bodies are of every kind (value, let, empty, statements then value, assignment,
+    nested if), used where their value matters: between other elements of an array literal, as a call argument, as an
+    operand, as a let initialiser.  Exactly one value must come out, whatever the body is made of."""
+    from ..past import match, arm, plit, pdef
+    bodies = [("value", lambda n: [expr(I(n))]), ("let", lambda n: [let("t", I(n))]), ("empty", lambda n: []),
+              ("stmts", lambda n: [obs(I(-n)), expr(I(n))]), ("assign", lambda n: [expr(asg(ident("acc"), I(n)))]),
+              ("nested-if", lambda n: [expr(if_(lit(vbool(True)), [expr(I(n))], [expr(I(0))]))]),
+              ("obs-only", lambda n: [obs(I(n))])]
+    holders = [("array-middle", lambda e: obs(arr(I(10), e, I(30)))),
+               ("call-argument", lambda e: obs(call("snd", I(10), e))),
+               ("operand", lambda e: obs(arr(bin_("==", e, lit(vnull())), I(30)))),
+               ("let-init", lambda e: let("v", e)),
+               ("map-value", lambda e: obs(map_((I(1), e))))]
+    out = []
+    pre = [OBS_DECL, fndef("snd", ["a", "b"], [expr(ident("b"))]), let("acc", I(0))]
+    for b1n, b1 in bodies:
+        for b2n, b2 in bodies[:4]:
+            for hn, hold in holders:
+                for taken in (0, 1, 2):
+                    # match with the first / second / no arm taken
+                    m = match(I(taken), [arm([plit(vint(0))], b1(11)), arm([plit(vint(1)), plit(vint(5))], b2(22))])
+                    out.append(("value-position match %s/%s in %s taken=%d" % (b1n, b2n, hn, taken),
+                                pre + [hold(m), obs(ident("acc")), obs(I(77))]))
+                for cond in (True, False):
+                    e = if_(lit(vbool(cond)), b1(11), b2(22))
+                    out.append(("value-position if %s/%s in %s cond=%s" % (b1n, b2n, hn, cond),
+                                pre + [hold(e), obs(ident("acc")), obs(I(77))]))
+                e = if_(lit(vbool(False)), b1(11))
+                out.append(("value-position if-no-else %s in %s" % (b1n, hn), pre + [hold(e), obs(I(77))]))
+    return out
+
+
 def run(rep, tier, seed):
     core.build_harness()
     rnd = random.Random(seed)
@@ -117,12 +150,19 @@ def run(rep, tier, seed):
     for tag, prog in if_chains(3, rnd, 1500 if tier == "quick" else 20000):
         items.append({"id": "i%d" % n, "prog": prog, "tag": tag})
         n += 1
+    for k, (tag, prog) in enumerate(value_positions()):
+        if tier == "quick" and k % 2:
+            continue
+        items.append({"id": "v%d" % n, "prog": prog, "tag": tag})
+        n += 1
     bad, verdicts = progs.run_and_validate(rep, items, chk=("final",))
     rep.cov["distinct_nontrivial"] = len({it["tag"] for it in items})
     rep.cov["rule"] = ("match: TLC-enumerated scrutinee x pattern tables (spec/GenMatch.tla, quick: every 7th); loops: all "
                        "nests up to depth 2 (thorough 3) of while/loop, labelled or not, with break/continue "
                        "(plain or to any enclosing label) at every body position; if-chains up to length 3 over the "
-                       "truthiness domain with value / valueless / empty bodies; distinct = distinct shape tags")
+                       "truthiness domain with value / valueless / empty bodies; if / match with 7 kinds of bodies in 5 value "
+                       "positions (array element, call argument, operand, let initialiser, map value); distinct = distinct "
+                       "shape tags")
     rep.cov["exhaustive"] = False
     for it in items[:1] + items[-1:]:
         rep.sample({"src": it["src"], "out": it["out"]})
@@ -130,7 +170,7 @@ def run(rep, tier, seed):
         parts = it["tag"].split(" ")
         if parts[0] == "match":
             sig = "match %s %s %s %s" % (parts[1], parts[2], parts[3], progs.outcome_delta(v["exp"], out))
-        elif parts[0] == "loops":
+        elif parts[0] in ("loops", "value-position"):
             sig = "%s %s" % (it["tag"], progs.outcome_delta(v["exp"], out))
         else:
             sig = "if bodies=%s %s" % (parts[-1], progs.outcome_delta(v["exp"], out))
